@@ -386,9 +386,13 @@ func (g *gen) stmtDelete(db *MDB, t *MTable, small bool) Stmt {
 	return s
 }
 
+// values an INT column must refuse
+var outOfInt32 = []Val{Int(math.MaxInt32 + 1), Int(math.MinInt32 - 1), Int(math.MaxInt64), Int(math.MinInt64), Int(math.MinInt64 + 1),
+	Int(1 << 40), Int(-(1 << 40)), Int(1 << 32), Int(-(1 << 32)), Int(math.MaxInt64 - 1)}
+
 // stmtFail makes a statement that must be refused.
 func (g *gen) stmtFail(db *MDB, t *MTable) Stmt {
-	kinds := []string{"unknown-table", "colcount", "type", "range", "size", "dup-table", "upd-size", "upd-type", "del-unknown", "upd-unknown"}
+	kinds := []string{"unknown-table", "colcount", "type", "range", "size", "dup-table", "upd-size", "upd-type", "upd-range", "del-unknown", "upd-unknown"}
 	for tries := 0; tries < 8; tries++ {
 		kind := kinds[g.r.Intn(len(kinds))]
 		switch kind {
@@ -465,7 +469,7 @@ func (g *gen) stmtFail(db *MDB, t *MTable) Stmt {
 			}
 			return mk(func(row []Val) []Val {
 				i := ints[g.r.Intn(len(ints))]
-				row[i] = []Val{Int(math.MaxInt32 + 1), Int(math.MinInt32 - 1), Int(math.MaxInt64), Int(1 << 40)}[g.r.Intn(4)]
+				row[i] = outOfInt32[g.r.Intn(len(outOfInt32))]
 				return row
 			})
 		case "size":
@@ -492,6 +496,22 @@ func (g *gen) stmtFail(db *MDB, t *MTable) Stmt {
 				row[vi] = Str(string(row[vi].S) + strings.Repeat("y", over))
 				return row
 			})
+		case "upd-range":
+			if len(t.Rows) == 0 {
+				continue
+			}
+			var ints []int
+			for i, c := range t.Cols {
+				if c.Type == TInt && i > 0 {
+					ints = append(ints, i)
+				}
+			}
+			if len(ints) == 0 {
+				continue
+			}
+			r0 := t.Rows[g.r.Intn(len(t.Rows))]
+			return Stmt{Kind: KUpdate, Table: t.Name, Where: &Cond{Cmps: []Cmp{{"k", "=", r0.Vals[0]}}},
+				Set: []SetItem{{t.Cols[ints[g.r.Intn(len(ints))]].Name, outOfInt32[g.r.Intn(len(outOfInt32))]}}}
 		case "upd-size", "upd-type":
 			if len(t.Rows) == 0 {
 				continue
